@@ -23,7 +23,7 @@ CHECKS = {
     "C04": ("fault_enumeration",
             "deterministic simulation with crash-point enumeration: every durable-write boundary of a production step (nested depth 2-3) on the real aggregator over a journalled simulated disk; restart with real NewManager; bounded-liveness and exposed-block oracles",
             "For seeded history prefixes every durable-write boundary of the target production step is a crash point and, for each, every boundary of the first recovery production (depth 3 in part of thorough); each member is executed from scratch, restarted with the real start-up code, must produce within 3 steps, keep every committed/published block, and end with a valid chain whose height/state/blocks agree. Exhaustive over boundaries of the enumerated steps, sampled over histories.",
-            "Crash = process death with ordered durable writes and atomic batches; cache-file torn states are enumerated from an strace recording when that sub-check is enabled.",
+            "Crash = process death with ordered durable writes and atomic batches. The cache-file crash states of the shutdown save are enumerated in every run from an strace recording of the real SaveCache (every prefix of the recorded file operations plus cuts inside each write), so the tree is judged on its own system calls; needs strace (present in the sandbox; if missing the sub-check reports that in the evidence and is skipped).",
             "DESIGN.md §5 C04", "stepsim"),
     "C05": ("fault_enumeration",
             "deterministic simulation with crash-point enumeration: every durable-write boundary of block application on a real follower (nested depth 2), restart, seeded re-delivery order, prefix-equality oracle",
@@ -78,7 +78,7 @@ CHECKS = {
     "C19": ("fault_enumeration",
             "fault enumeration over the key file image: every truncation length and every byte position x bit flips/replacement on files written by the real code, wrong passphrases, legacy format, export/import; oracle = Load fails or yields exactly the original, self-consistent key; never a panic",
             "For each (passphrase class, format) variant the key file written by the real ImportPrivateKey is damaged at every truncation length and every byte position (2 bit flips + a replacement byte in quick, all 8 bit flips in thorough) and loaded with the real loader; a successful load must report the created public key, produce signatures that verify under it and have the address full nodes derive; wrong passphrases never load; export->import->load preserves the key; seeded double faults on top. Exhaustive over single faults of the enumerated variants.",
-            "Torn writes are covered as truncations (superset). Salt/nonce come from crypto/rand, so byte values (not positions) differ between runs.",
+            "Torn writes are covered as truncations (superset). Salt/nonce come from crypto/rand, so byte values (not positions) differ between runs. One known finding (legacy format truncates the passphrase to 32 bytes).",
             "DESIGN.md §5 C19", "stepsim"),
     "C20": ("exploration",
             "deterministic simulation: real based sequencer over simulated disk and DA; harness plays the block manager with seeded size limits, DA growth, retrieval errors and restarts; DA-order prefix oracle and bounded liveness",
@@ -94,7 +94,7 @@ CHECKS = {
     "C13": ("exploration",
             "whole-node simulation under the synctest fake clock with the race detector: all background loops of an aggregator and a full node as real concurrent goroutines against simulated DA/execution/disk, seeded stimuli, latencies (time dilation), DA faults and stop instants; schedule-independent oracles",
             "Per run the seed fixes block/DA times, lazy/normal mode, pending limit, genesis in the past or future, transaction arrivals, DA fault script, DA and execution latencies, run length and the stop instant (biased into the start-up delay). Oracles valid on every schedule: no race-detector report, every worker returns within 1 s of simulated time after the stop (never-stopping workers are reported through an emergency path), and post-mortem C01 chain validity, C02 prefix equality, C06 submission/watermark soundness, C07 finalize order and bound. Sampling of interleavings, not proof.",
-            "Interleavings are chosen by the Go scheduler (time dilation only spreads activities over simulated time): replay is seed-exact for stimuli and faults, best-effort for the interleaving (20 attempts). P2P transport is a gossip goroutine feeding harness-owned stores in this configuration.",
+            "Two halves, both run by bin/check C13: (1) Manager-level configuration with the race detector (all ten loops of an aggregator and a full node as concurrent goroutines; P2P replaced by a gossip goroutine); (2) whole node.FullNode objects (real Run, P2P client, go-header/gossipsub sync services over a libp2p mocknet, shutdown sequence) WITHOUT the race detector, because this toolchain's race runtime crashes in that configuration. Interleavings are chosen by the Go scheduler (time dilation only spreads activities over simulated time): replay is seed-exact for stimuli and faults, best-effort for the interleaving (20 attempts).",
             "DESIGN.md §4.5, §5 C13", "netsim"),
     "C14": ("exploration",
             "deterministic simulation: seeded op/crash/disk-error histories on the real store over a simulated journalled disk, checked against a map model",
